@@ -294,3 +294,139 @@ Proof.
   destruct (many (values_of (field_name FTeam) fs)); [reflexivity|].
   destruct (values_of (field_name FTeam) fs); reflexivity.
 Qed.
+(* ------------------------------------------------------------------ *)
+(* check_headers *)
+
+Lemma src_entry_msgstr : forall e,
+  opt_or_empty (match e_plural0 e with Some s => Some s | None => e_msgstr e end) = entry_msgstr e.
+Proof. intro e. unfold entry_msgstr, opt_or_empty. destruct (e_plural0 e); reflexivity. Qed.
+
+Lemma src_fields_of : forall ls,
+  flat_map (fun l => match l with HField k v => [(k, v)] | HStray _ => [] end) ls = fields_of ls.
+Proof. reflexivity. Qed.
+
+Lemma src_strays_of : forall ls,
+  flat_map (fun l => match l with HField _ _ => [] | HStray s => [s] end) ls = strays_of ls.
+Proof. reflexivity. Qed.
+
+Lemma concat_singletons_nil : forall l : list str, (forall x, In x l -> exists c, x = [c]) -> concat l = [] -> l = [].
+Proof.
+  intros [|x r] H Hc; [reflexivity|]. destruct (H x (or_introl eq_refl)) as [c ->]. discriminate Hc.
+Qed.
+
+Lemma sorted_chars_nil : forall l, sorted_chars l = [] <-> l = [].
+Proof.
+  intro l. unfold sorted_chars. split.
+  - intro H. apply concat_singletons_nil in H.
+    + apply (proj1 (sort_u_nil _)) in H. apply map_eq_nil in H. exact H.
+    + intros x Hx. apply In_sort_u, in_map_iff in Hx. destruct Hx as [c [<- _]]. exists c. reflexivity.
+  - intros ->. reflexivity.
+Qed.
+
+Lemma src_unusual : forall O s,
+  (if truthy (unusual_scan O None s) then [DUnusualChars (sorted_chars (unusual_scan O None s))] else [])
+  = match unusual_chars O s with [] => [] | cs => [DUnusualChars cs] end.
+Proof.
+  intros O s. change (unusual_chars O s) with (sorted_chars (unusual_scan O None s)).
+  destruct (unusual_scan O None s) as [|c r] eqn:E; [reflexivity|]. cbn [truthy].
+  destruct (sorted_chars (c :: r)) eqn:E2; [apply (proj1 (sorted_chars_nil _)) in E2; discriminate E2 | reflexivity].
+Qed.
+
+Lemma src_flags : forall O template flags,
+  flat_map (fun x : str * nat =>
+      (if str_eqb (fst x) (lit "fuzzy") then (if negb template then [DFuzzyHeader] else [])
+       else (if o_close_fuzzy O (o_lower O (fst x)) then [DUnexpectedFlag (fst x) true] else [DUnexpectedFlag (fst x) false]))
+      ++ (if Nat.ltb 1 (snd x) then [DDuplicateFlag (fst x)] else []))
+    (counter_items flags)
+  = flag_diags O template flags.
+Proof.
+  intros O template flags. unfold counter_items, flag_diags. rewrite flat_map_map'. apply flat_map_ext'. intro f. cbn [fst snd].
+  change (lit "fuzzy") with s_fuzzy. f_equal.
+  destruct (str_eqb f s_fuzzy); [destruct template; reflexivity|].
+  destruct (o_close_fuzzy O (o_lower O f)); reflexivity.
+Qed.
+
+Lemma src_header_entry : forall O template first e,
+  (if truthy (e_occurrences e) then [DEmptyMsgidRefs (join_refs (e_occurrences e))] else [])
+  ++ (if e_has_plural e then [DEmptyMsgidPlural] else [])
+  ++ flag_diags O template (e_flags e)
+  ++ (if negb first then [DDistantHeader] else [])
+  ++ match unusual_chars O (entry_msgstr e) with [] => [] | cs => [DUnusualChars cs] end
+  = header_entry_diags O template first e.
+Proof.
+  intros O template first e. unfold header_entry_diags, join_refs. f_equal.
+  - destruct (e_occurrences e); reflexivity.
+  - f_equal. f_equal. f_equal. destruct first; reflexivity.
+Qed.
+
+(* the loop over ctx.file with its `continue`, `break` and the flag seen_header_entry, against the model's
+   "first live header entry, and is there a second one" *)
+Lemma src_entry_loop : forall O known dedicated template parse es0 l first seen out md st,
+  src_check_headers_loop1 O known dedicated template parse es0 seen out md st first l =
+  match header_entries first l with
+  | [] => (seen, out, md, st)
+  | (f, e) :: more =>
+    if seen then (true, out ++ [DDuplicateHeaderEntry], md, st)
+    else (true,
+          out ++ header_entry_diags O template f e ++ (match more with [] => [] | _ => [DDuplicateHeaderEntry] end),
+          md ++ fields_of (parse (entry_msgstr e)),
+          st ++ strays_of (parse (entry_msgstr e)))
+  end.
+Proof.
+  intros O known dedicated template parse es0. induction l as [|x l' IH]; intros first seen out md st; [reflexivity|].
+  cbn [src_check_headers_loop1 header_entries].
+  rewrite !src_entry_msgstr, !src_fields_of, !src_strays_of, !src_flags, !src_unusual.
+  destruct (e_header x), (e_obsolete x); cbn [negb orb andb app];
+    try (rewrite IH, !app_nil_r; reflexivity).
+  destruct seen; cbn [app].
+  - rewrite !app_nil_r. reflexivity.
+  - rewrite IH, src_header_entry. destruct (header_entries false l') as [|[f' e'] more'].
+    + rewrite !app_nil_r. reflexivity.
+    + rewrite <- !app_assoc. reflexivity.
+Qed.
+
+Lemma src_stray_loop : forall O known dedicated template parse es0 l first seen out,
+  src_check_headers_loop2 O known dedicated template parse es0 seen out first l =
+  (seen || existsb is_conflict_marker l, out ++ stray_diags seen l).
+Proof.
+  intros O known dedicated template parse es0. induction l as [|x l' IH]; intros first seen out.
+  - cbn. rewrite orb_false_r, app_nil_r. reflexivity.
+  - cbn [src_check_headers_loop2 stray_diags existsb]. rewrite IH.
+    destruct (is_conflict_marker x), seen; cbn [negb orb app]; rewrite <- ?app_assoc; reflexivity.
+Qed.
+
+Lemma src_key : forall O known dedicated fs k,
+  (if hstarts (lit "X-") k || hstarts (lit "x-") k then []
+   else if smem k known then []
+   else match (if opt_in (match lc_get (o_lower O) known (o_lower O k) with
+                          | Some _ => lc_get (o_lower O) known (o_lower O k)
+                          | None => match o_close_field O k with Some h => Some h | None => None end
+                          end) (map fst fs)
+               then None
+               else match lc_get (o_lower O) known (o_lower O k) with
+                    | Some _ => lc_get (o_lower O) known (o_lower O k)
+                    | None => match o_close_field O k with Some h => Some h | None => None end
+                    end) with
+        | Some h => [DUnknownField k (Some h)]
+        | None => [DUnknownField k None]
+        end)
+  ++ (if Nat.ltb 1 (length (values_of k fs)) && negb (smem k dedicated) then [DDuplicateField k] else [])
+  = key_diags O known dedicated fs k.
+Proof.
+  intros O known dedicated fs k. unfold key_diags. change (lit "X-") with s_X. change (lit "x-") with s_x.
+  change (lc_get (o_lower O) known (o_lower O k)) with (lc_lookup O known k).
+  f_equal. destruct (hstarts s_X k || hstarts s_x k); [reflexivity|]. destruct (smem k known); [reflexivity|].
+  destruct (lc_lookup O known k) as [h|]; cbn [opt_in].
+  - destruct (smem h (map fst fs)); reflexivity.
+  - destruct (o_close_field O k) as [h|]; cbn [opt_in]; [destruct (smem h (map fst fs))|]; reflexivity.
+Qed.
+
+Lemma src_check_headers_eq : forall O known dedicated template es,
+  src_check_headers O known dedicated template parse_header es = check_headers O known dedicated template es.
+Proof.
+  intros O known dedicated template es. unfold src_check_headers, check_headers.
+  rewrite src_entry_loop. destruct (header_entries true es) as [|[first e] more]; [reflexivity|].
+  cbn [fst snd app]. rewrite src_stray_loop. cbn [fst snd app]. f_equal.
+  rewrite <- !app_assoc. f_equal. f_equal. f_equal.
+  unfold mm_items. rewrite flat_map_map'. apply flat_map_ext'. intro k. cbn [fst snd]. apply src_key.
+Qed.
